@@ -1,6 +1,7 @@
 """C14 - changing a predicate while it is being enumerated (logical update view)."""
 from ..eng import EngineModel
 from .. import rules_db as rd
+from .. import rules_extra as rx
 
 
 def check(repo, rep, tier):
@@ -13,3 +14,4 @@ def check(repo, rep, tier):
     sm, pa = rd.rule_frozen_lists(em, rep, 'C14.L1')
     rd.rule_no_read_yield_write(em, rep, 'C14.L2', sm)
     rd.rule_remove_by_identity(em, rep, 'C14.L3', sm)
+    rx.rule_facts_immutable(em, rep, 'C14.L4')
